@@ -856,7 +856,6 @@ func c08Assertions(r *core.Report, fns []*core.Func) {
 	r.Extra["C08_type_assertions_in_scope"] = inv
 }
 
-
 // ---- R7 / R8 ----------------------------------------------------------------------------------
 
 // c08Bounds: (R7) index/slice expressions whose base is request-derived or is a list of the loaded epochs
